@@ -596,6 +596,13 @@ impl Machine {
         self.allocate_stub_choice_point()
             .expect("failed to allocate stub choice point");
 
+        // NOTE: backtracking to the stub choice point must not hand back the
+        // cells that precede the query: the interstitial cell 0 and the
+        // pre-allocated error(resource_error(memory), []) term live there.
+        let query_b = self.machine_st.b;
+        self.machine_st.stack.index_or_frame_mut(query_b).prelude.h =
+            self.machine_st.heap.cell_len();
+
         // NOTE: a ball left over from an earlier query that threw must not
         // be reported again by this query.
         self.machine_st.ball.reset();
